@@ -337,6 +337,12 @@ class Run:
 
     def violation(self, what: str, record: dict, no_input=False):
         """Record a violation unless it matches an open known finding."""
+        if self.prop != "C10" and not record.get("expects_timeout") and \
+                "Timeout during evaluating constexpr" in json.dumps(record, default=str):
+            # the constexpr child has a 1 s wall-clock limit: under machine load an evaluation can time
+            # out spuriously (also after the serial retries); such a comparison is inconclusive
+            self.count("inconclusive_constexpr_timeouts")
+            return False
         f = None if no_input else self.classify(record)
         if f is not None:
             if f["id"] not in self.known_hits:
@@ -398,7 +404,8 @@ class Run:
         }
         if assumptions_text is not None:
             ev["print_assumptions"] = assumptions_text
-        (EVID / f"{self.prop}.json").write_text(json.dumps(ev, indent=1, default=str))
+        if os.environ.get("PV_REPLAY") != "1":      # a replay re-runs the check without touching the evidence
+            (EVID / f"{self.prop}.json").write_text(json.dumps(ev, indent=1, default=str))
         print(f"[{self.prop}] done rc={rc} wall={ev['wall_s']}s", flush=True)
         return rc
 
